@@ -168,6 +168,10 @@ pub mod noop_lemmas {
         requires !m.contains_key(k)
         ensures #[trigger] m.remove(k) == m
     { assert(m.remove(k) =~= m); }
+    pub broadcast proof fn lemma_map_insert_remove<K, V>(m: Map<K, V>, k: K, v: V)
+        requires !m.contains_key(k)
+        ensures #[trigger] m.insert(k, v).remove(k) == m
+    { assert(m.insert(k, v).remove(k) =~= m); }
     pub broadcast proof fn lemma_set_insert_same<A>(s: Set<A>, a: A)
         requires s.contains(a)
         ensures #[trigger] s.insert(a) == s
@@ -178,7 +182,7 @@ pub mod noop_lemmas {
     { assert(s.remove(a) =~= s); }
 }
 broadcast use {
-    noop_lemmas::lemma_map_insert_same, noop_lemmas::lemma_map_remove_absent, noop_lemmas::lemma_set_insert_same, noop_lemmas::lemma_set_remove_absent,
+    noop_lemmas::lemma_map_insert_same, noop_lemmas::lemma_map_remove_absent, noop_lemmas::lemma_map_insert_remove, noop_lemmas::lemma_set_insert_same, noop_lemmas::lemma_set_remove_absent,
     trusted::axiom_conn_id_key_model, trusted::axiom_channel_cookie_key_model, trusted::axiom_conn_id_injective,
     trusted::axiom_bl_cookie_key_model, trusted::axiom_filter_key_model, trusted::axiom_object_uuid_key_model,
     trusted::axiom_svc_key_model, trusted::axiom_object_cookie_key_model, trusted::axiom_service_cookie_key_model,
